@@ -237,9 +237,10 @@ def main(argv=None):
       replay_paths.append(path)
       lines.append(f'VIOLATION property={check_id} replay={path}')
       lines.append(f'  key={k}: {v["what"]}')
-  for k in known_hit:
-    lines.append(f'KNOWN-FINDING: property={check_id} {k}: {known[k].get("what", "")} '
-                 f'(seen {hit_counts[k]}x this run)')
+  for k in known:       # every listed finding, whether or not this run's workload reproduced it
+    seen = (f'seen {hit_counts[k]}x this run' if k in hit_counts
+            else 'not reproduced by this run\'s workload')
+    lines.append(f'KNOWN-FINDING: property={check_id} {k}: {known[k].get("what", "")} ({seen})')
   if status == 0 and reasons:
     status = 2
     lines.append(f'INCONCLUSIVE property={check_id} reason=' + ','.join(reasons))
